@@ -25,6 +25,9 @@ TLA_CP = "/opt/veriftools/tla/tla2tools.jar:/opt/veriftools/tla/CommunityModules
 NCPU = os.cpu_count() or 4
 
 
+HARNESS_ONLY_KEYS = ("meta", "steps", "seed", "observers", "loop", "left", "N", "pad", "gen_error")
+
+
 class MachineryError(Exception):
     """The checking machinery itself failed (TLC crash, unparsable output...)."""
 
@@ -316,7 +319,8 @@ class Ctx:
             return []
         path = os.path.join(self.rundir, f"traces_{module}_{len(self.tlc_runs)}.json")
         with open(path, "w") as f:
-            json.dump(traces, f)
+            # harness-only metadata (seeds, abstract step lists for replay) is not part of the trace
+            json.dump([{k: v for k, v in t.items() if k not in HARNESS_ONLY_KEYS} for t in traces], f)
         env = {"TRACE_FILE": path}
         if extra_env:
             env.update(extra_env)
